@@ -365,6 +365,16 @@ MASKED_ACCEPTS = []
 
 
 def oracle(c, real, model):
+    if c.kind == "F13-getter-shape":
+        # the property's own reading of the getter clause, applied to the REAL observation of the start packet:
+        # the method getter must return what the function-style getter returns (the value, no length byte)
+        try:
+            g = vlib.parse_val(real)[0]
+            if g[11][0] == 0 and g[26][0] == 0 and g[11][1] != g[26][1]:
+                return "method-style TransportPrivateData() = %s, value = %s (length byte included)" % (g[11][1].hex(), g[26][1].hex())
+        except Exception:
+            return "unreadable reply"
+        return ""
     if real == model:
         return ""
     try:
@@ -414,7 +424,13 @@ def shrink(c):
             yield Case(join_line(pkt, k), kind=c.kind, decides=c.decides, theorem=c.theorem)
 
 
+def known_match(entry, case, real, model):
+    return case.kind == "F13-getter-shape" and entry.get("kind") == "F13-getter-shape"
+
+
 def case_of_line(line, kind):
+    if kind == "F13-getter-shape":
+        return Case(line, kind=kind, decides=True, theorem="C03_getters_full_refuted")
     return Case(line, kind=kind or "replay", decides=not kind.startswith("fidelity"), theorem="C03_history")
 
 
